@@ -28,6 +28,13 @@ T3, T5, T6, DELAY = 45.0, 10.0, 5.0, 10
 BOUND = T5 + T6 + 2 * (T3 + DELAY)
 
 
+# the check-then-act code between an application thread waiting for COMMUNICATING and the thread performing the transition
+REGION = [
+    "secsgem.gem.handler:GemHandler.waitfor_communicating",
+    "secsgem.gem.handler:GemHandler._on_state_communicating",
+]
+
+
 def build(host_active, eq_initial):
     hs = env.hsms_settings(active=host_active, device_type=secsgem.common.DeviceType.HOST, t3=T3, t5=T5, t6=T6, establish_communication_timeout=DELAY)
     es = env.hsms_settings(active=not host_active, device_type=secsgem.common.DeviceType.EQUIPMENT, t3=T3, t5=T5, t6=T6,
@@ -116,9 +123,9 @@ def run_one(devs, budgets, host_active=True, order="host-first", eq_initial="ONL
             r = host.send_remote_command("START", [])
             expect(f"remote_command-ack|{tag}", None if r is None else val(r.HCACK), 4)
 
-        def event(tag, subscribe):
+        def event(tag, subscribe, rptid=1001):
             if subscribe:
-                host.subscribe_collection_event(50, [30], report_id=1000)
+                host.subscribe_collection_event(50, [30], report_id=rptid)
             n0 = len(received)
             eq.trigger_collection_events([50])
             # the event report is sent by its own thread: wait (virtual time) until it is acknowledged or T3 passed
@@ -127,7 +134,7 @@ def run_one(devs, budgets, host_active=True, order="host-first", eq_initial="ONL
             got = received[n0:]
             if len(got) != 1:
                 bad((f"event-delivery-count={len(got)}|{tag}", {"got": got}))
-            elif got[0] != (50, 1000, [(30, "x")]):
+            elif got[0] != (50, rptid, [(30, "x")]):
                 bad((f"event-content|{tag}", {"got": got}))
 
         first, second = (host, eq) if order == "host-first" else (eq, host)
@@ -138,7 +145,10 @@ def run_one(devs, budgets, host_active=True, order="host-first", eq_initial="ONL
         if phase == "handshake":
             return
         services("first")
-        event("first", True)
+        event("first", True, 1000)
+        # drop every subscription, subscribe the same event again: the event must arrive exactly once, with the new report only
+        host.clear_collection_events()
+        event("resubscribed", True)
         control("first")
         if phase == "full":
             host.disable()
@@ -157,7 +167,7 @@ def run_one(devs, budgets, host_active=True, order="host-first", eq_initial="ONL
         eq.disable()
         step(("end",))
 
-    sched = vrt.run(driver, devs, budgets, max_steps=2_000_000, max_time=20000.0, line_points=False)
+    sched = vrt.run(driver, devs, budgets, max_steps=2_000_000, max_time=20000.0, line_points=(phase == "handshake"))
     res = {"trace": sched.trace, "v": []}
     case = {"host_active": host_active, "order": order, "eq_initial": eq_initial, "phase": phase, "cuts": cuts}
     if sched.harness_failure or (sched.driver_exception and "HarnessError" in sched.driver_exception):
@@ -193,10 +203,16 @@ def run(ctx):
     ctx.assumptions += [
         "both handlers run on real HsmsProtocol objects joined by an in-memory link whose connector establishes the TCP connection as soon as "
         "both sides are enabled and down (connect latency zero); segment cuts are environment deviations of the link",
-        "scheduling points are the runtime's operations (locks, events, queues, thread start/join, sends); no line tracing with 13+ threads",
+        "scheduling points are the runtime's operations (locks, events, queues, thread start/join, sends); in the handshake phase also every "
+        "line of GemHandler.waitfor_communicating / _on_state_communicating (the waiter registration against the transition)",
         f"'within a bounded time' = T5 + T6 + 2 (T3 + delay) = {BOUND} s of virtual time",
         "the equipment's own tables are the reference for every host service call",
     ]
+    from checks import hsms_harness as hh  # noqa: PLC0415
+
+    missing = hh.trace_region(REGION)
+    if missing:
+        ctx.note(f"not line-traced (not found): {missing}")
     k = 1
     tot = states = 0
     parts = []
@@ -230,7 +246,7 @@ def run(ctx):
     ctx.setcov("transitions", tot)
     ctx.setcov("traces_validated_against_impl", tot)
     ctx.setcov("parts", parts)
-    ctx.sample({"script": "enable both, wait communicating, 11 host service calls, subscribe + trigger event, go offline/online, remote command, "
+    ctx.sample({"script": "enable both, wait communicating, 11 host service calls, subscribe + trigger event, clear + subscribe again + trigger, go offline/online, remote command, "
                           "restart host, restart equipment", "first": parts[0]})
 
 
